@@ -1,5 +1,7 @@
 /-
-Model for C17 of the request path of tier1, as the code is at /repo HEAD (F10–F12 fixed):
+Model for C17 of the request path of tier1 (and, at the end of the file, of the first steps of tier2's
+processRange), as the code is at /repo HEAD (F10–F12 fixed; 17e1a4e4: only map and store inputs are
+graph edges):
 
   service/validate.go            ValidateTier1Request, validateRequest, validateModuleGraph, validateBinaryTypes
   pb/.../rpc/v2/substreams.go    Request.Validate
@@ -873,7 +875,7 @@ def pipeline (r : Request) (cfg : Cfg) : Outcome Summary := (pipelineStaged r cf
   pb/.../intern/v2/validate.go   ProcessRangeRequest.Validate
   service/validate.go            ValidateTier2Request (shares validateRequest with tier1)
   service/tier2.go               processRange: NewOutputModuleGraph(out, true, modules, firstStreamable),
-                                 then execGraph.UsedModulesUpToStage(int(request.Stage))
+                                 the stage check (fix 84ed6b1e), then execGraph.UsedModulesUpToStage(int(request.Stage))
 -/
 
 /-- the internal request, wire level; the three store/metering strings only matter as empty / non-empty -/
@@ -915,6 +917,10 @@ index out of range when `stage` is not a stage of the graph -/
 def usedModulesUpToStage (eg : ExecGraph) (stage : Nat) : Outcome (List Module) :=
   if stage < eg.stages.length then .ok ((eg.stages.take (stage + 1)).flatten.flatten) else .panic
 
+/-- processRange, fix 84ed6b1e: `if int(request.Stage) >= len(execGraph.StagedUsedModules())` → invalid argument -/
+def checkStage (eg : ExecGraph) (stage : Nat) : Outcome Unit :=
+  if eg.stages.length ≤ stage then .error else .ok ()
+
 structure T2Summary where
   graph : ExecGraph
   upTo : List Module
@@ -926,7 +932,7 @@ def pipelineTier2Staged (r : T2Request) : Stage × Outcome T2Summary :=
     match computeGraph r.outputModule true ms r.firstStreamable with
     | .error => (.graph, .error) | .panic => (.graph, .panic) | .hang => (.graph, .hang)
     | .ok eg =>
-      match usedModulesUpToStage eg r.stage with
+      match (checkStage eg r.stage).bind fun _ => usedModulesUpToStage eg r.stage with
       | .error => (.upto, .error) | .panic => (.upto, .panic) | .hang => (.upto, .hang)
       | .ok l => (.done, .ok ⟨eg, l⟩)
 
